@@ -231,6 +231,15 @@ def run_shard(shard):
                 x = u.in_timezone(tz)
                 check_getters_obj(acc, x, {"kind": "aware", "h": h, "tz": tz.name})
                 acc.c["transitions"] += 1
+        # whole months, at noon, in zones whose spring change skips 00:00 of the first day of the month (and a plain control)
+        for zn, y, m in (("America/Asuncion", 2017, 10), ("America/Asuncion", 2023, 10), ("Asia/Amman", 2016, 4), ("America/Sao_Paulo", 2015, 11),
+                         ("America/Santiago", 2019, 9), ("Europe/Paris", 2021, 3)):
+            tzm = pendulum.timezone(zn)
+            for d in range(1, calref.days_in_month(y, m) + 1):
+                for hh, fold in ((12, 1), (0, 1), (23, 0)):
+                    x = pendulum.DateTime.create(y, m, d, hh, 30, tz=tzm, fold=fold)
+                    check_getters_obj(acc, x, {"kind": "aware", "h": None, "tz": zn, "ymd": [y, m, d, hh]})
+                    acc.c["transitions"] += 1
         acc.c["nontrivial"] += 1
         acc.sample({"kind": "aware_getters", "hours_since_epoch": [shard["h0"], shard["h1"]], "zones": ["UTC"] + list(AWARE_ZONES)})
     elif kind == "lt_days":
